@@ -32,6 +32,7 @@ type replayEntry struct {
 	Tier    string `json:"tier"`
 	Repeat  int    `json:"repeat,omitempty"`
 	Conc    bool   `json:"-"`
+	KnownID string `json:"-"` // the path lies in the region of this known finding
 	// expectation (not read by the native test)
 	Kind   string   `json:"expect_kind"`
 	Msg    string   `json:"expect_msg"`
@@ -161,6 +162,10 @@ func sameOutcome(exp replayEntry, got replayResult) bool {
 		}
 		return strings.Join(exp.Covers, ",") == strings.Join(got.Covers, ",")
 	case "violation":
+		if strings.HasPrefix(exp.Msg, "deadlock:") {
+			// the engine reports a deadlock from its scheduler, the native run from the harness's watchdog
+			return got.Kind == "violation" && strings.HasPrefix(got.Msg, "deadlock:")
+		}
 		return got.Kind == "violation" && got.Msg == exp.Msg
 	case "panic":
 		return got.Kind == "panic" || got.Kind == "crash"
@@ -305,7 +310,7 @@ func cmdCheck(args []string) int {
 					rep = 5000 // ... or on the goroutine schedule: stress until it shows
 				}
 			}
-			entries = append(entries, replayEntry{ID: id, Harness: hs.Name, Tape: tape, Tier: *tier, Repeat: rep, Kind: o.Kind, Msg: o.Msg, Covers: o.Covers, Conc: hs.Concurrent})
+			entries = append(entries, replayEntry{ID: id, Harness: hs.Name, Tape: tape, Tier: *tier, Repeat: rep, Kind: o.Kind, Msg: o.Msg, Covers: o.Covers, Conc: hs.Concurrent, KnownID: o.Known})
 			return id
 		}
 		for vi, v := range res.Violations {
@@ -361,6 +366,13 @@ func cmdCheck(args []string) int {
 			continue
 		}
 		same := sameOutcome(e, got)
+		if !same && e.ID[0] == 'w' && e.Conc && e.KnownID != "" && got.Kind == "violation" {
+			// a concurrent path inside the region of an open known finding: whether the finding shows
+			// depends on the schedule, which natively is Go's
+			if f, ok := findings[e.KnownID]; ok && f.Status == "open" && (f.Check == "" || strings.Contains(got.Msg, f.Check)) {
+				same = true
+			}
+		}
 		switch e.ID[0] {
 		case 'w':
 			if same {
